@@ -484,8 +484,23 @@ def corr_hz(ctx, exe, drv, n):
             ptS1 = mtv(R, sub(frc[0:3], XG[9:12])); vel = add(V12[3:6], cross(V12[0:3], sub(ptS1, X12[9:12])))
             vt_ = sub(vel, sc(dot(vel, g[1:4]), g[1:4])); vs = norm(vt_)
             scale = max(1.0, abs(fn))
+            # documented Hertz / Hunt-Crossley magnitude with the documented material-combination rules, from the
+            # implementation's own contact data: s1 = k2/(k1+k2) (k = stiffness^(2/3)), k = k1 s1, c = c1 s1 + c2 (1-s1),
+            # contact point = origin + x (1/2 - s1) n, xdot = -(v12 + w12 x (pt - p12)).n, fN = 4/3 k x sqrt(R k x) (1 + 3/2 c xdot)
+            k1_, k2_, c1_, c2_ = m1[2], m2[2], m1[3], m2[3]; s1_ = k2_ / (k1_ + k2_); kk = k1_ * s1_; cc = c1_ * s1_ + c2_ * (1 - s1_)
+            x_ = g[0]; n_ = g[1:4]; ptd = add(g[4:7], sc(x_ * (0.5 - s1_), n_))
+            xdot = -dot(add(V12[3:6], cross(V12[0:3], sub(ptd, X12[9:12]))), n_)
+            fH_ = 4.0 / 3.0 * kk * x_ * math.sqrt(g[7] * kk * x_) if x_ > 0 else 0.0; fdoc = fH_ * (1 + 1.5 * cc * xdot)
+            dscale = max(abs(fdoc), abs(fH_), 1e-12)
+            if abs(k1_ - k2_) > 1e-3 * (k1_ + k2_) and abs(c1_ - c2_) > 1e-3 and abs(xdot) > 1e-3:
+                hist['discriminating_contacts'] = hist.get('discriminating_contacts', 0) + 1
+                hist['discriminating_' + ('approaching' if xdot > 0 else 'separating')] = hist.get('discriminating_' + ('approaching' if xdot > 0 else 'separating'), 0) + 1
             if pred is None:
                 if fn < -1e-9 * scale: pred = (lines[ci], 'normal-attractive', 'contact %d: normal component %g' % (cid, fn))
+                elif abs(fn - max(fdoc, 0.0)) > 1e-7 * dscale + 1e-13:
+                    pred = (lines[ci], 'magnitude-not-documented', 'contact %d: normal force %.12g, documented max(fN,0) = %.12g (k1^(2/3) %g, k2^(2/3) %g, c1 %g, c2 %g, x %g, xdot %g, R %g)' % (cid, fn, max(fdoc, 0.0), k1_, k2_, c1_, c2_, x_, xdot, g[7]))
+                elif fdoc > 0 and abs(frc[9] - 0.4 * fH_ * x_) > 1e-7 * max(abs(frc[9]), 1e-12) + 1e-13:
+                    pred = (lines[ci], 'potential-energy-not-documented', 'contact %d: PE %.12g, documented 2/5 fH x = %.12g' % (cid, frc[9], 0.4 * fH_ * x_))
                 elif norm(ft) > fn * (us + uv * vs) * (1 + 1e-7) + 1e-12 * scale: pred = (lines[ci], 'friction-above-limit', 'contact %d: |ft| %g > %g' % (cid, norm(ft), fn * (us + uv * vs)))
                 elif dot(ft, mv(R, vt_)) > 1e-9 * scale * max(vs, 1e-12): pred = (lines[ci], 'friction-does-not-oppose-slip', 'contact %d' % cid)
         if not ok:
@@ -573,12 +588,12 @@ def corr_bk(ctx, exe, drv, n):
             face = [vH[q] for q in range(8) if (verts[q][best[1]] > 0) == (best[2] > 0)]
             mat = lambda m: [m[1], m[3], m[4], m[5], m[6]]          # k (plain stiffness) c us ud uv
             ml.append(fmt(['BK', sig] + mat(mats[s1]) + mat(mats[s2]) + [cases[ci][1]['vt']] + nH + p12 + V12[0:3] + V12[3:6] + [4] + sum(face, [])))
-            meta.append((ci, cid, XG, forces.get(cid), g))
+            meta.append((ci, cid, XG, forces.get(cid), g, mats[s1], mats[s2]))
     mouts, err = run_lines(drv, ml)
     if len(mouts) != len(ml):
         ctx.broken.append(('ocaml:C37_drv:BK', 'driver produced %d lines for %d contacts' % (len(mouts), len(ml)))); return
-    dis = 0; first = None; hist = {'contacts': len(ml), 'active_vertices': {}, 'no_force': 0}
-    for (ci, cid, XG, frc, g), mo in zip(meta, mouts):
+    dis = 0; first = None; hist = {'contacts': len(ml), 'active_vertices': {}, 'no_force': 0, 'vertex_details_checked': 0}; pred = None
+    for (ci, cid, XG, frc, g, mH, mB), mo in zip(meta, mouts):
         m = parse_floats(mo)   # F[6] (moment about H origin, force) pe power nactive {pt f pe power x xdot}
         R = [XG[0:3], XG[3:6], XG[6:9]]; nact = int(m[8]); hist['active_vertices'][nact] = hist['active_vertices'].get(nact, 0) + 1
         if frc is None:
@@ -588,6 +603,18 @@ def corr_bk(ctx, exe, drv, n):
             cop = mtv(R, sub(rec[0:3], XG[9:12])); M = mtv(R, rec[3:6]); Fh = mtv(R, rec[6:9])
             MO = add(M, cross(cop, Fh))
             impl = MO + Fh + rec[9:11]; ok = agree(impl, m[0:8], 1e-8, 1e-10) and len(det) == nact
+            # implementation-only predicate on every reported vertex detail: documented penalty law with the documented
+            # combination rules (plain stiffness): sH = kB/(kH+kB), k = kH sH, c = cH sH + cB (1-sH), fN = k x (1 + c xdot), pe = k x^2/2
+            kH_, kB_, cH_, cB_ = mH[1], mB[1], mH[3], mB[3]; sH_ = kB_ / (kH_ + kB_); kk = kH_ * sH_; cc = cH_ * sH_ + cB_ * (1 - sH_)
+            for dd in det:
+                hist['vertex_details_checked'] += 1
+                x_, xd_ = dd[12], dd[13]; fdoc = kk * x_ * (1 + cc * xd_); fnv = dot(dd[9:12], dd[3:6]); dsc = max(abs(fdoc), kk * x_, 1e-12)
+                if pred is None:
+                    if fnv < -1e-9 * dsc: pred = (lines[ci], 'normal-attractive', 'vertex normal force %g' % fnv)
+                    elif abs(fnv - max(fdoc, 0.0)) > 1e-7 * dsc + 1e-13:
+                        pred = (lines[ci], 'magnitude-not-documented', 'vertex normal force %.12g, documented max(k x (1 + c xdot),0) = %.12g (kH %g kB %g cH %g cB %g x %g xdot %g)' % (fnv, max(fdoc, 0.0), kH_, kB_, cH_, cB_, x_, xd_))
+                    elif abs(dd[14] - kk * x_ * x_ / 2) > 1e-7 * max(abs(dd[14]), 1e-12) + 1e-13:
+                        pred = (lines[ci], 'potential-energy-not-documented', 'vertex PE %.12g, documented k x^2/2 = %.12g' % (dd[14], kk * x_ * x_ / 2))
             if ok:
                 mdet = [m[9 + 10 * d: 19 + 10 * d] for d in range(nact)]
                 for dd in det:
@@ -601,6 +628,9 @@ def corr_bk(ctx, exe, drv, n):
     hist['active_vertices'] = {str(k): v for k, v in hist['active_vertices'].items()}
     ctx.extra.setdefault('correspondence', {})['BK'] = dict(scenes=len(lines), disagreements=dis, **hist)
     if first: ctx.broken.append(('correspondence:BrickHalfSpacePenalty', 'ContactForce / details differ from the model: input=%s impl=%s model=%s' % (first[0][:300], first[1], first[2])))
+    if pred:
+        ctx.broken.append(('predicate:BrickHalfSpacePenalty:' + pred[1], pred[2]))
+        ctx.report('impl:BrickHalfSpacePenalty:' + pred[1], pred[2], {'probe_input': pred[0], 'failing_input': pred[0]})
 
 def run(ctx):
     ctx.build_repo()
